@@ -74,8 +74,10 @@ def gen_errorfree(draw):
         r = draw(st.integers(0, 19))
         if r == 0:
             sp["flag_extra"] = 1024          # duplicate
+            sp["stale"] = draw(st.booleans())    # tags left by an earlier run, also on records that are not tagged now
         elif r == 1:
             sp["flag_extra"] = 256           # secondary
+            sp["stale"] = draw(st.booleans())
         elif r == 2:
             sp["stale"] = True
         elif r == 3 and "pair" not in sp:
@@ -85,6 +87,7 @@ def gen_errorfree(draw):
             sup = dict(sp)
             sup["segments"] = P.snap_segments([[s2, min(L, s2 + draw(st.integers(40, 150)))]], c["variants"][sp["chrom"]], L)
             sup["flag_extra"] = 2048
+            sup["stale"] = draw(st.booleans())
             sup.pop("clips", None)
             if draw(st.integers(0, 2)) == 0:
                 sup["mapq"] = draw(st.sampled_from([0, 3, 19, 20, 255]))
@@ -100,6 +103,7 @@ def gen_errorfree(draw):
         c["vcf_empty_contig"] = c["contigs"][draw(st.integers(0, 1))]["name"]
     c["unmapped"] = draw(st.integers(0, 2))
     c["unmapped_placed"] = draw(st.integers(0, 1))
+    c["unmapped_stale"] = draw(st.booleans())
     contigs = [x["name"] for x in c["contigs"]]
     regions = None
     if draw(st.integers(0, 2)) == 0:
@@ -209,6 +213,8 @@ def build_bam(case, path):
         c0 = case["contigs"][0]
         reads.append({"name": "unmapped_placed%d" % i, "sample": case["samples"][0], "unmapped": True, "flag": 4, "seq": "ACGTACGTTT",
                       "chrom": c0["name"], "pos": min(50, len(c0["seq"]) - 1)})
+        if case.get("unmapped_stale"):
+            reads[-1]["tags"] = {"HP": 1, "PS": 12345, "PC": 60}
     return G.write_bam(case, reads, path), reads
 
 
